@@ -98,9 +98,9 @@ def _parse_air(logdir: str, crate: str) -> dict:
     return obl
 
 
-def run_unit(template: str, build_root: str, defines=(), seed: int | None = None, rlimit: float | None = None,
+def _run_unit_once(template: str, build_root: str, defines=(), seed: int | None = None, rlimit: float | None = None,
              threads: int = 4, timeout: int = 600, log_air: bool = True,
-             overlay: dict | None = None, tag_suffix: str = '') -> UnitResult:
+             overlay: dict | None = None, tag_suffix: str = '', inline: dict | None = None) -> UnitResult:
     unit = os.path.basename(template).replace('.rs.in', '')
     tag = unit + ''.join('_' + d.lower() for d in sorted(defines)) + tag_suffix
     bdir = os.path.join(build_root, tag)
@@ -110,6 +110,7 @@ def run_unit(template: str, build_root: str, defines=(), seed: int | None = None
     t0 = time.time()
     try:
         asm.set_overlay(overlay)
+        asm.set_inline(inline)
         a = asm.assemble(template, set(defines))
     except (LostAnchor, asm.TemplateError) as e:
         return UnitResult(unit, tuple(defines), path, None, False, f'{type(e).__name__}: {e}', {}, [], {}, 0, 0,
@@ -207,3 +208,29 @@ def run_unit(template: str, build_root: str, defines=(), seed: int | None = None
     shutil.rmtree(os.path.join(bdir, 'logs'), ignore_errors=True)
     return UnitResult(unit, tuple(defines), path, a, tool_error is None, tool_error, functions, diags, obligations,
                       verified, errors, wall, smt_ms, ' '.join(cmd), ('\n'.join(d.rendered for d in diags if d.level == 'error')[-3000:] or p.stderr[-1500:]) if tool_error else '')
+
+
+def run_unit(template: str, build_root: str, defines=(), **kw) -> UnitResult:
+    """run a unit; when it does not compile because an extracted function calls a helper that is not in the
+    unit (`cannot find function X`) and X is a return-free free function of the same /repo file, retry with
+    the helper inlined at its call sites (rewrite R17)."""
+    inline: dict = {}
+    res = _run_unit_once(template, build_root, defines, **kw)
+    for _ in range(3):
+        if not res.tool_error:
+            return res
+        new = {}
+        for d in res.diags:
+            m = re.search(r'cannot find function `([A-Za-z_][A-Za-z0-9_]*)` in this scope', d.message)
+            org = d.origin
+            if m and org and not org[0].startswith('T:') and m.group(1) not in inline:
+                new[m.group(1)] = org[0]
+        if not new:
+            return res
+        inline.update(new)
+        res2 = _run_unit_once(template, build_root, defines, inline=inline, **kw)
+        if res2.assembled is None:      # the helper could not be inlined: keep the first, more informative result
+            res.tool_error += ' ; inlining helper(s) ' + ', '.join(new) + ' failed: ' + (res2.tool_error or '')
+            return res
+        res = res2
+    return res
